@@ -160,6 +160,22 @@ func driveC09(args []string) error {
 			writeCReg([]int{3, t, rng.Intn(256), rng.Intn(256), 0}, rng.Intn(7), false)
 		}
 	}
+	// blends whose three bytes look like a 2-byte / 1-byte encodable RGBA value
+	for t := 0; t < 256; t += 0x11 {
+		for c0 := 0; c0 < 256; c0 += 0x11 {
+			writeCReg([]int{3, t, c0, (t + c0) % 256 / 0x11 * 0x11, 0}, 0, false)
+			writeCReg([]int{3, t, c0, rng.Intn(16) * 0x11, 0}, rng.Intn(7), false)
+		}
+	}
+	for _, v := range []int{0x00, 0x40, 0x80, 0xc0, 0xff} {
+		writeCReg([]int{3, v, v, v, 0}, 0, false)
+		writeCReg([]int{3, v, 0xff, 0x00, 0}, 0, true)
+	}
+	// indirect colours whose index byte looks like a colour channel
+	for _, i := range []int{0x00, 0x11, 0x22, 0x33, 0x3f} {
+		writeCReg([]int{1, i, 0, 0, 0}, 0, false)
+		writeCReg([]int{2, i, 0, 0, 0}, 0, false)
+	}
 
 	// ---- decoder tables -------------------------------------------------------------------
 	dec := func(form int, payload []byte) {
